@@ -45,10 +45,24 @@ type Cfg struct {
 	Depth          int      `json:"depth"`
 	MaxStates      int      `json:"max_states,omitempty"`
 	Budgeted       bool     `json:"time_budgeted,omitempty"` // gets an equal share of the remaining wall time
+	// StartRound3: rounds 1 and 2 are run honestly (real handlers, two blocks) inside Build, the search
+	// starts in round 3 (deviations in round 3 only).
+	StartRound3 bool `json:"start_in_round3,omitempty"`
+	// ZeroDealer/ZeroRecipient (member ids, 0 = off): the dealer's polynomial is a legal one with a root
+	// at the recipient's id, i.e. the correct share f_dealer(recipient) is the scalar 0.
+	ZeroDealer    int `json:"zero_share_dealer,omitempty"`
+	ZeroRecipient int `json:"zero_share_recipient,omitempty"`
 }
 
 func (c Cfg) name() string {
-	return fmt.Sprintf("n%d-t%d-dev%d-%s", c.N, c.T, c.MaxDev, strings.Join(c.Kinds, ""))
+	nm := fmt.Sprintf("n%d-t%d-dev%d-%s", c.N, c.T, c.MaxDev, strings.Join(c.Kinds, ""))
+	if c.StartRound3 {
+		nm += "-r3only"
+	}
+	if c.ZeroDealer > 0 {
+		nm += fmt.Sprintf("-zero%dto%d", c.ZeroDealer, c.ZeroRecipient)
+	}
+	return nm
 }
 
 type spec struct {
@@ -174,12 +188,38 @@ func (s *spec) Build(w *engine.World) (sdk.Context, engine.Model) {
 	g, res := tssh.ProposeGroup(w, ctx, accs[:n], uint64(s.cfg.T), ctx.BlockTime().Add(time.Hour))
 	tssh.Must(res, "transition group")
 	g.GenRound1()
+	if s.cfg.ZeroDealer > 0 {
+		craftZeroShare(g, s.cfg.ZeroDealer-1, s.cfg.ZeroRecipient-1)
+	}
 	g.GenRound2()
-	g.GenRound3()
+	setOwnKeys(g)
 	s.mt = buildMat(g, accs[n], s.cfg.Kinds)
 	grp := w.App.TSSKeeper.MustGetGroup(ctx, g.ID)
 	m := &model{St: "R1", R1: make([]string, n), R2: make([]string, n), R3: make([]string, n),
 		Mal: make([]bool, n), Dev: make([]bool, n), Created: int64(grp.CreatedHeight)}
+	if s.cfg.StartRound3 {
+		step := func() {
+			next, br := w.Block(ctx, 1, 3*time.Second)
+			if br.Halt != "" {
+				panic("halt while building the round-3 base: " + br.Halt)
+			}
+			ctx = next
+		}
+		for i := 0; i < n; i++ {
+			tssh.Must(w.Tx(ctx, 0, s.mt.r1h[i]), "honest round 1")
+			m.R1[i] = "h"
+		}
+		step()
+		for i := 0; i < n; i++ {
+			tssh.Must(w.Tx(ctx, 0, s.mt.r2[i][0].Msg), "honest round 2")
+			m.R2[i] = "h"
+		}
+		step()
+		m.St = "R3"
+		if got := chainStatus(w, ctx, g.ID); got != "R3" {
+			panic("round-3 base: group is in status " + got)
+		}
+	}
 	return ctx, m
 }
 
@@ -545,6 +585,11 @@ func (s *spec) round3(w *engine.World, ctx sdk.Context, m *model, st *engine.Ste
 		for _, c := range cs {
 			expect = append(expect, exp{int(c.Respondent) - 1, true})
 		}
+		if len(cs) == 0 && s.cfg.ZeroRecipient == i+1 {
+			if pl, known := s.dealt(m, s.cfg.ZeroDealer-1, i); known && pl != nil && pl.Sign() == 0 {
+				st.Saw("zero-share-verified-by-recipient")
+			}
+		}
 	}
 	switch kind {
 	case "h":
@@ -552,6 +597,9 @@ func (s *spec) round3(w *engine.World, ctx sdk.Context, m *model, st *engine.Ste
 		complaints = append(complaints, mt.fc[i][j])
 		expect = append(expect, exp{j, false})
 		confirm = nil
+		if m.Mal[j] {
+			st.Saw("unfounded-complaint-against-already-flagged-member")
+		}
 	case "ks":
 		complaints = []tsstypes.Complaint{mt.ks[i][j]}
 		expect = []exp{{j, false}}
@@ -625,6 +673,9 @@ func (s *spec) round3(w *engine.World, ctx sdk.Context, m *model, st *engine.Ste
 		}
 		for range gotFail {
 			st.Saw("complain_failed")
+		}
+		if kind == "fc" && s.cfg.ZeroDealer == j+1 && s.cfg.ZeroRecipient == i+1 && len(gotFail) > 0 {
+			st.Saw("unfounded-complaint-about-zero-share-failed")
 		}
 		return
 	}
@@ -854,12 +905,21 @@ func configs(quick bool) []Cfg {
 	const period = 4
 	depth := func(n int) int { return 3*n + period + 4 }
 	var out []Cfg
+	// both tiers: (a) two deviating members in round 3 in every order, after honest rounds 1-2 (order-
+	// dependent verdicts: complaints about members that are already flagged); (b) a legal polynomial with
+	// a root at a recipient's id (the correct share is the scalar 0), one deviating member
+	extra := []Cfg{
+		{N: 3, T: 2, MaxDev: 2, CreationPeriod: period, Kinds: []string{"x"}, Probes: false, Depth: depth(3), StartRound3: true},
+		{N: 2, T: 2, MaxDev: 1, CreationPeriod: period, Kinds: []string{"x", "p"}, Probes: false, Depth: depth(2), ZeroDealer: 1, ZeroRecipient: 2},
+	}
 	if quick {
 		for _, nt := range [][2]int{{2, 1}, {2, 2}, {3, 2}} {
 			out = append(out, Cfg{N: nt[0], T: nt[1], MaxDev: 1, CreationPeriod: period, Kinds: []string{"x", "p", "s"}, Probes: true, Depth: depth(nt[0])})
 		}
+		out = append(out, extra...)
 		return out
 	}
+
 	full := []string{"x", "p", "k", "s"}
 	// exhaustive part: <=2 deviators for n=2, <=1 deviator for n=3,4
 	for _, nt := range [][2]int{{2, 1}, {2, 2}} {
@@ -871,6 +931,12 @@ func configs(quick bool) []Cfg {
 	for _, nt := range [][2]int{{4, 2}, {4, 3}} {
 		out = append(out, Cfg{N: nt[0], T: nt[1], MaxDev: 1, CreationPeriod: period, Kinds: []string{"x", "s"}, Probes: true, Depth: depth(nt[0])})
 	}
+	out = append(out, extra...)
+	out = append(out,
+		Cfg{N: 3, T: 2, MaxDev: 1, CreationPeriod: period, Kinds: []string{"x", "p"}, Probes: false, Depth: depth(3), ZeroDealer: 3, ZeroRecipient: 1},
+		Cfg{N: 3, T: 3, MaxDev: 1, CreationPeriod: period, Kinds: []string{"x", "p"}, Probes: false, Depth: depth(3), ZeroDealer: 2, ZeroRecipient: 3},
+		Cfg{N: 4, T: 2, MaxDev: 2, CreationPeriod: period, Kinds: []string{"x"}, Probes: false, Depth: depth(4), StartRound3: true},
+	)
 	// <=2 deviators for n=3,4: one corruption kind, no must-reject probes (covered above); each gets an
 	// equal share of the remaining time and ends with exhaustive:false when it is used up
 	for _, nt := range [][2]int{{3, 2}, {3, 1}, {3, 3}, {4, 2}, {4, 3}} {
@@ -897,7 +963,8 @@ func init() {
 			}
 			r.Required = []string{"active:all-honest", "keys-consistent", "fallen:bad-dealer-caught", "fallen:false-complainant-marked",
 				"expired@R1", "expired@R2", "expired@R3", "complain_success", "complain_failed",
-				"r3:h:confirm:ok", "r3:h:complain:ok", "r3:fc:ok", "r3:ks:ok", "r3:sg:ok", "r3:nr:ok", "r1:bc:ok", "r2:x:ok", "r2:s:ok"}
+				"r3:h:confirm:ok", "r3:h:complain:ok", "r3:fc:ok", "r3:ks:ok", "r3:sg:ok", "r3:nr:ok", "r1:bc:ok", "r2:x:ok", "r2:s:ok",
+				"unfounded-complaint-against-already-flagged-member", "zero-share-verified-by-recipient", "unfounded-complaint-about-zero-share-failed"}
 			if !r.Quick() {
 				r.Required = append(r.Required, "active:with-deviators", "r3:cfx:ok", "r2:k:ok")
 			}
